@@ -417,7 +417,7 @@ Proof.
       intros k0 g0 [].
     - left. reflexivity.
     - intros y Hy. apply HinN. apply HY. exact Hy. }
-  pose proof (trso_vocab_rec N (surr_of domains) topo (4 * length N + 8) q0 HP) as Hres. rewrite H in Hres. cbn [Postr] in Hres.
+  pose proof (trso_vocab_rec N (surr_of domains) topo (fuel_for g) q0 HP) as Hres. rewrite H in Hres. cbn [Postr] in Hres.
   unfold AQ in Hres. cbn [tact q0 is_nil] in Hres. unfold PA in Hres. rewrite Hne in Hres. cbn [orb] in Hres.
   apply vocab_of_atoms. exact Hres.
 Qed.
